@@ -675,6 +675,7 @@ package keeper
 //@   requires e.contract != nil
 //@   modifies nothing
 //@   ensures[C10.view_name,C12.ro_name_writes_nothing] err == nil ==> bytes(ret) == abiEncString(e.contract.metadata.Name)
+//@   ensures[C12.ro_world_unchanged] (bankBal == old(bankBal) && bankSupply == old(bankSupply) && authVersion == old(authVersion) && evlog == old(evlog) && kvHas == old(kvHas) && kvVal == old(kvVal) && acctSeq == old(acctSeq) && acctExists == old(acctExists) && stakingVersion == old(stakingVersion) && distVersion == old(distVersion) && sdbLogCount == old(sdbLogCount) && sdbLogAddr == old(sdbLogAddr) && sdbLogNTopics == old(sdbLogNTopics) && sdbLogT0 == old(sdbLogT0) && sdbLogT1 == old(sdbLogT1) && sdbLogT2 == old(sdbLogT2) && sdbLogT3 == old(sdbLogT3) && sdbLogData == old(sdbLogData))
 //@   panics[C10.view_name_panics] only_if len(input) < 4 || !abiSelectorOk("name", bytes(input))
 
 //@ func (e erc20CustomPrecompiledContractRoSymbol) Execute(caller corevm.ContractRef, contractAddr common.Address, input []byte, env cpcExecutorEnv) (ret []byte, err error)
@@ -682,6 +683,7 @@ package keeper
 //@   requires (e.contract.cacheErc20Metadata != nil ==> (e.contract.cacheErc20Metadata.MinDenom == erc20Denom(e.contract.metadata.TypedMeta) && e.contract.cacheErc20Metadata.Symbol == jsonErc20Symbol(strBytes(e.contract.metadata.TypedMeta)) && e.contract.cacheErc20Metadata.Decimals == jsonErc20Decimals(strBytes(e.contract.metadata.TypedMeta))))
 //@   modifies e.contract.cacheErc20Metadata
 //@   ensures[C10.view_symbol,C12.ro_symbol_writes_nothing] err == nil ==> bytes(ret) == abiEncString(jsonErc20Symbol(strBytes(e.contract.metadata.TypedMeta)))
+//@   ensures[C12.ro_world_unchanged] (bankBal == old(bankBal) && bankSupply == old(bankSupply) && authVersion == old(authVersion) && evlog == old(evlog) && kvHas == old(kvHas) && kvVal == old(kvVal) && acctSeq == old(acctSeq) && acctExists == old(acctExists) && stakingVersion == old(stakingVersion) && distVersion == old(distVersion) && sdbLogCount == old(sdbLogCount) && sdbLogAddr == old(sdbLogAddr) && sdbLogNTopics == old(sdbLogNTopics) && sdbLogT0 == old(sdbLogT0) && sdbLogT1 == old(sdbLogT1) && sdbLogT2 == old(sdbLogT2) && sdbLogT3 == old(sdbLogT3) && sdbLogData == old(sdbLogData))
 //@   ensures e.contract.cacheErc20Metadata != nil ==> (e.contract.cacheErc20Metadata.MinDenom == erc20Denom(e.contract.metadata.TypedMeta) && e.contract.cacheErc20Metadata.Symbol == jsonErc20Symbol(strBytes(e.contract.metadata.TypedMeta)) && e.contract.cacheErc20Metadata.Decimals == jsonErc20Decimals(strBytes(e.contract.metadata.TypedMeta)))
 //@   panics[C10.view_symbol_panics] only_if len(input) < 4 || !abiSelectorOk("symbol", bytes(input)) || !jsonErc20Ok(strBytes(e.contract.metadata.TypedMeta))
 
@@ -690,6 +692,7 @@ package keeper
 //@   requires (e.contract.cacheErc20Metadata != nil ==> (e.contract.cacheErc20Metadata.MinDenom == erc20Denom(e.contract.metadata.TypedMeta) && e.contract.cacheErc20Metadata.Symbol == jsonErc20Symbol(strBytes(e.contract.metadata.TypedMeta)) && e.contract.cacheErc20Metadata.Decimals == jsonErc20Decimals(strBytes(e.contract.metadata.TypedMeta))))
 //@   modifies e.contract.cacheErc20Metadata
 //@   ensures[C10.view_decimals,C12.ro_decimals_writes_nothing] err == nil ==> bytes(ret) == abiEncUint(jsonErc20Decimals(strBytes(e.contract.metadata.TypedMeta)))
+//@   ensures[C12.ro_world_unchanged] (bankBal == old(bankBal) && bankSupply == old(bankSupply) && authVersion == old(authVersion) && evlog == old(evlog) && kvHas == old(kvHas) && kvVal == old(kvVal) && acctSeq == old(acctSeq) && acctExists == old(acctExists) && stakingVersion == old(stakingVersion) && distVersion == old(distVersion) && sdbLogCount == old(sdbLogCount) && sdbLogAddr == old(sdbLogAddr) && sdbLogNTopics == old(sdbLogNTopics) && sdbLogT0 == old(sdbLogT0) && sdbLogT1 == old(sdbLogT1) && sdbLogT2 == old(sdbLogT2) && sdbLogT3 == old(sdbLogT3) && sdbLogData == old(sdbLogData))
 //@   ensures e.contract.cacheErc20Metadata != nil ==> (e.contract.cacheErc20Metadata.MinDenom == erc20Denom(e.contract.metadata.TypedMeta) && e.contract.cacheErc20Metadata.Symbol == jsonErc20Symbol(strBytes(e.contract.metadata.TypedMeta)) && e.contract.cacheErc20Metadata.Decimals == jsonErc20Decimals(strBytes(e.contract.metadata.TypedMeta)))
 //@   panics[C10.view_decimals_panics] only_if len(input) < 4 || !abiSelectorOk("decimals", bytes(input)) || !jsonErc20Ok(strBytes(e.contract.metadata.TypedMeta))
 
@@ -698,6 +701,7 @@ package keeper
 //@   requires (e.contract.cacheErc20Metadata != nil ==> (e.contract.cacheErc20Metadata.MinDenom == erc20Denom(e.contract.metadata.TypedMeta) && e.contract.cacheErc20Metadata.Symbol == jsonErc20Symbol(strBytes(e.contract.metadata.TypedMeta)) && e.contract.cacheErc20Metadata.Decimals == jsonErc20Decimals(strBytes(e.contract.metadata.TypedMeta))))
 //@   modifies e.contract.cacheErc20Metadata
 //@   ensures[C10.view_totalSupply,C12.ro_totalSupply_writes_nothing] err == nil ==> bytes(ret) == abiEncUint(bankSupply[layer(env.ctx)][erc20Denom(e.contract.metadata.TypedMeta)])
+//@   ensures[C12.ro_world_unchanged] (bankBal == old(bankBal) && bankSupply == old(bankSupply) && authVersion == old(authVersion) && evlog == old(evlog) && kvHas == old(kvHas) && kvVal == old(kvVal) && acctSeq == old(acctSeq) && acctExists == old(acctExists) && stakingVersion == old(stakingVersion) && distVersion == old(distVersion) && sdbLogCount == old(sdbLogCount) && sdbLogAddr == old(sdbLogAddr) && sdbLogNTopics == old(sdbLogNTopics) && sdbLogT0 == old(sdbLogT0) && sdbLogT1 == old(sdbLogT1) && sdbLogT2 == old(sdbLogT2) && sdbLogT3 == old(sdbLogT3) && sdbLogData == old(sdbLogData))
 //@   ensures e.contract.cacheErc20Metadata != nil ==> (e.contract.cacheErc20Metadata.MinDenom == erc20Denom(e.contract.metadata.TypedMeta) && e.contract.cacheErc20Metadata.Symbol == jsonErc20Symbol(strBytes(e.contract.metadata.TypedMeta)) && e.contract.cacheErc20Metadata.Decimals == jsonErc20Decimals(strBytes(e.contract.metadata.TypedMeta)))
 //@   panics[C10.view_totalSupply_panics] only_if len(input) < 4 || !abiSelectorOk("totalSupply", bytes(input)) || !jsonErc20Ok(strBytes(e.contract.metadata.TypedMeta))
 
@@ -706,6 +710,7 @@ package keeper
 //@   requires (e.contract.cacheErc20Metadata != nil ==> (e.contract.cacheErc20Metadata.MinDenom == erc20Denom(e.contract.metadata.TypedMeta) && e.contract.cacheErc20Metadata.Symbol == jsonErc20Symbol(strBytes(e.contract.metadata.TypedMeta)) && e.contract.cacheErc20Metadata.Decimals == jsonErc20Decimals(strBytes(e.contract.metadata.TypedMeta))))
 //@   modifies e.contract.cacheErc20Metadata
 //@   ensures[C10.view_balanceOf,C12.ro_balanceOf_writes_nothing] err == nil ==> bytes(ret) == abiEncUint(bankBal[layer(env.ctx)][addrBytes(abiArgAddr(bytes(input), 0))][erc20Denom(e.contract.metadata.TypedMeta)])
+//@   ensures[C12.ro_world_unchanged] (bankBal == old(bankBal) && bankSupply == old(bankSupply) && authVersion == old(authVersion) && evlog == old(evlog) && kvHas == old(kvHas) && kvVal == old(kvVal) && acctSeq == old(acctSeq) && acctExists == old(acctExists) && stakingVersion == old(stakingVersion) && distVersion == old(distVersion) && sdbLogCount == old(sdbLogCount) && sdbLogAddr == old(sdbLogAddr) && sdbLogNTopics == old(sdbLogNTopics) && sdbLogT0 == old(sdbLogT0) && sdbLogT1 == old(sdbLogT1) && sdbLogT2 == old(sdbLogT2) && sdbLogT3 == old(sdbLogT3) && sdbLogData == old(sdbLogData))
 //@   ensures e.contract.cacheErc20Metadata != nil ==> (e.contract.cacheErc20Metadata.MinDenom == erc20Denom(e.contract.metadata.TypedMeta) && e.contract.cacheErc20Metadata.Symbol == jsonErc20Symbol(strBytes(e.contract.metadata.TypedMeta)) && e.contract.cacheErc20Metadata.Decimals == jsonErc20Decimals(strBytes(e.contract.metadata.TypedMeta)))
 //@   panics[C10.view_balanceOf_panics] only_if len(input) < 4 || !abiSelectorOk("balanceOf", bytes(input)) || !jsonErc20Ok(strBytes(e.contract.metadata.TypedMeta))
 
@@ -713,6 +718,7 @@ package keeper
 //@   requires e.contract != nil && e.contract.keeper.storeKey != nil
 //@   modifies nothing
 //@   ensures[C10.view_allowance,C12.ro_allowance_writes_nothing] err == nil ==> bytes(ret) == abiEncUint(cpcAllow(kvHas[kvId(layer(env.ctx), payload(e.contract.keeper.storeKey))], kvVal[kvId(layer(env.ctx), payload(e.contract.keeper.storeKey))], abiArgAddr(bytes(input), 0), abiArgAddr(bytes(input), 1)))
+//@   ensures[C12.ro_world_unchanged] (bankBal == old(bankBal) && bankSupply == old(bankSupply) && authVersion == old(authVersion) && evlog == old(evlog) && kvHas == old(kvHas) && kvVal == old(kvVal) && acctSeq == old(acctSeq) && acctExists == old(acctExists) && stakingVersion == old(stakingVersion) && distVersion == old(distVersion) && sdbLogCount == old(sdbLogCount) && sdbLogAddr == old(sdbLogAddr) && sdbLogNTopics == old(sdbLogNTopics) && sdbLogT0 == old(sdbLogT0) && sdbLogT1 == old(sdbLogT1) && sdbLogT2 == old(sdbLogT2) && sdbLogT3 == old(sdbLogT3) && sdbLogData == old(sdbLogData))
 //@   panics[C10.view_allowance_panics] only_if len(input) < 4 || !abiSelectorOk("allowance", bytes(input))
 
 // ---------------------------------------------------------------------------------------------
@@ -927,4 +933,32 @@ package keeper
 //@ func NewCustomPrecompiledContract(metadata cpctypes.CustomPrecompiledContractMeta, keeper Keeper) (c CustomPrecompiledContractI)
 //@   ensures[C17.contract_of_type] (metadata.CustomPrecompiledType == 1 ==> typeof(c) == type(*erc20CustomPrecompiledContract)) && (metadata.CustomPrecompiledType == 2 ==> typeof(c) == type(*stakingCustomPrecompiledContract)) && (metadata.CustomPrecompiledType == 3 ==> typeof(c) == type(*bech32CustomPrecompiledContract))
 //@   ensures[C17.known_types_only] 1 <= metadata.CustomPrecompiledType && metadata.CustomPrecompiledType <= 3
+
+// ---------------------------------------------------------------------------------------------
+// precompiles_staking.go — read-only methods (C12 clause (b)): a method that declares ReadOnly() == true writes no
+// chain state (bank, auth, module store, staking, distribution), appends no log and emits no event — in ANY context.
+// Frame: `modifies nothing` / the contract object's decode cache only; the clause C12.ro_world_unchanged states it over the
+// whole ghost world.
+// ---------------------------------------------------------------------------------------------
+
+// rewardOf / rewardsOf / balanceOf read the pending rewards through the x/distribution gRPC querier on the live context.
+// Clause C12.ro_distribution_unchanged is the part of "a read-only method writes nothing" that concerns x/distribution:
+// it FAILS on this tree (finding F-cpc-2, docs/findings-cpc.md: the querier runs IncrementValidatorPeriod).
+//@ func (e stakingCustomPrecompiledContractRoRewardOf) Execute(caller corevm.ContractRef, contractAddr common.Address, input []byte, env cpcExecutorEnv) (ret []byte, err error)
+//@   requires e.contract != nil
+//@   modifies distVersion[layer(env.ctx)]
+//@   ensures[C12.ro_world_unchanged] (bankBal == old(bankBal) && bankSupply == old(bankSupply) && authVersion == old(authVersion) && evlog == old(evlog) && kvHas == old(kvHas) && kvVal == old(kvVal) && acctSeq == old(acctSeq) && acctExists == old(acctExists) && stakingVersion == old(stakingVersion) && sdbLogCount == old(sdbLogCount) && sdbLogAddr == old(sdbLogAddr) && sdbLogNTopics == old(sdbLogNTopics) && sdbLogT0 == old(sdbLogT0) && sdbLogT1 == old(sdbLogT1) && sdbLogT2 == old(sdbLogT2) && sdbLogT3 == old(sdbLogT3) && sdbLogData == old(sdbLogData))
+//@   ensures[C12.ro_distribution_unchanged] distVersion == old(distVersion)
+
+//@ func (e stakingCustomPrecompiledContractRoRewardsOf) Execute(caller corevm.ContractRef, contractAddr common.Address, input []byte, env cpcExecutorEnv) (ret []byte, err error)
+//@   requires e.contract != nil
+//@   modifies distVersion[layer(env.ctx)]
+//@   ensures[C12.ro_world_unchanged] (bankBal == old(bankBal) && bankSupply == old(bankSupply) && authVersion == old(authVersion) && evlog == old(evlog) && kvHas == old(kvHas) && kvVal == old(kvVal) && acctSeq == old(acctSeq) && acctExists == old(acctExists) && stakingVersion == old(stakingVersion) && sdbLogCount == old(sdbLogCount) && sdbLogAddr == old(sdbLogAddr) && sdbLogNTopics == old(sdbLogNTopics) && sdbLogT0 == old(sdbLogT0) && sdbLogT1 == old(sdbLogT1) && sdbLogT2 == old(sdbLogT2) && sdbLogT3 == old(sdbLogT3) && sdbLogData == old(sdbLogData))
+//@   ensures[C12.ro_distribution_unchanged] distVersion == old(distVersion)
+
+//@ func (e stakingCustomPrecompiledContractRoBalanceOf) Execute(caller corevm.ContractRef, contractAddr common.Address, input []byte, env cpcExecutorEnv) (ret []byte, err error)
+//@   requires e.rewardsOf.contract != nil && e.rewardsOf.contract.keeper.bankKeeper != nil
+//@   modifies distVersion[layer(env.ctx)]
+//@   ensures[C12.ro_world_unchanged] (bankBal == old(bankBal) && bankSupply == old(bankSupply) && authVersion == old(authVersion) && evlog == old(evlog) && kvHas == old(kvHas) && kvVal == old(kvVal) && acctSeq == old(acctSeq) && acctExists == old(acctExists) && stakingVersion == old(stakingVersion) && sdbLogCount == old(sdbLogCount) && sdbLogAddr == old(sdbLogAddr) && sdbLogNTopics == old(sdbLogNTopics) && sdbLogT0 == old(sdbLogT0) && sdbLogT1 == old(sdbLogT1) && sdbLogT2 == old(sdbLogT2) && sdbLogT3 == old(sdbLogT3) && sdbLogData == old(sdbLogData))
+//@   ensures[C12.ro_distribution_unchanged] distVersion == old(distVersion)
 
